@@ -110,6 +110,9 @@ func CoroutineScripts(maxLen int) []GridCase {
 	var out []GridCase
 	for _, sa := range seqs {
 		for _, sb := range seqs {
+			if len(sb) > 2 {
+				continue // B's body has at most two actions (A's up to maxLen): the product stays enumerable
+			}
 			block := []Stmt{
 				&Local{Names: []string{"A", "B"}},
 				&Assign{Targets: []Expr{N("A")}, Exprs: []Expr{C(co("create"), body("A", "B", sa))}},
